@@ -313,7 +313,7 @@ class Unit:
             self.drop(f'fn {key}: /{pat}/ -> {rep!r}', n)
         for pat, rep in opt_rewrites:
             body, n = re.subn(pat, rep, body)
-            self.drop(f'fn {key}: /{pat}/ -> {rep!r}', n)
+            self.drop(f'fn {key}: /{pat}/ -> ' + (repr(rep) if isinstance(rep, str) else '<computed>'), n)
         if re.search(r'\blet\s+\[', code_mask(body)):
             body = self._desugar_array_let(body)
         if transform:
@@ -377,7 +377,7 @@ class Unit:
                 if spec.get('body_start'):
                     inserts.append((brace + 1, ' ' + spec['body_start'].strip() + ' '))
                 if spec.get('body_end'):
-                    inserts.append((close, ' ' + spec['body_end'].strip() + ' '))
+                    inserts.append((close, ' ' + spec['body_end'].strip() + ('\n' if spec['body_end'].endswith('\n') else ' ')))
                 if spec.get('after'):
                     inserts.append((close + 1, ' ' + spec['after'].strip() + ' '))
         if len(lh) > len(loops) and not external_body:
